@@ -10,6 +10,7 @@ CONSTANTS
  MolIdx <- MCMolAll
  MsgKinds <- MCMsgNone
  MaxMsgs = 0
+ WithEnv = FALSE
  HDev = "readerReusesBlock"
 INVARIANT ReadIsCurrent
 CHECK_DEADLOCK FALSE
